@@ -21,7 +21,7 @@ func init() {
 		ID: "C14", Level: "exploration",
 		Rule: "one case = one expression: case i uses the (i mod N)-th name of csvq's built-in function table (enumerated at run time, N ~ 120) or an operator / CASE / aggregate / analytic form, with arguments drawn from a typed pool (integers, floats, strings, datetimes, booleans, NULL). The expression is evaluated through six embeddings — literals, variables, table cells (SELECT over a cached table, twice), a WHILE loop (3 iterations), a user function body called three times, a prepared statement executed twice, and one parsed statement executed twice — once with the shipped allocator (pool recycling on) and once with poison-on-discard (a discarded value is overwritten with a sentinel and never re-issued). " +
 			"Monitors: (1) no sentinel may ever appear in a result, a variable, a table cell or a cursor row, and no object may be discarded twice; (2) a structural digest of the parsed syntax tree is unchanged by execution; (3) repeated evaluation gives the same values, and the variables and the cached table are unchanged. Plus fixed statement families around cached tables (sub-queries, CTEs, COUNT(*) forms, cursors kept across later statements). non-trivial = the expression evaluated without error in at least three embeddings; distinct = expression text.",
-		Quick: 1200, Thorough: 40000, FloorQuick: 400, FloorThorough: 12000,
+		Quick: 1200, Thorough: 40000, FloorQuick: 400, FloorThorough: 9000,
 		Assumptions: []string{"functions whose result legitimately varies (NOW, RAND, UUID-like, CALL, …) are excluded from the equality monitors but still run under the poison monitor", "the digest walks the tree by reflection incl. unexported fields; scalar payloads of literals are part of it"},
 		Setup:       func(w *core.Worker) { core.HermeticProcess(w.Work) },
 		Fn:          c14Case,
